@@ -198,11 +198,12 @@ def verify(proj, v, dl, mode, where, records, archive=None, allow_missing=False,
                     viol.append(('scm-state-wrong', '%s: import digest %s, actual checkout %s' % (tag, str(imp[0].get('digest'))[:40], want[:10])))
         if info['label'] == 'src' and info['recipe'] == 'dl':
             url = [s for s in art.get('scms', []) if s.get('type') == 'url']
-            if len(url) != 1: viol.append(('scm-record-missing', '%s: %d url records' % (tag, len(url))))
+            if len(url) != 2: viol.append(('scm-record-missing', '%s: %d url records' % (tag, len(url))))
             else:
-                data = ('download-data-v%d\n' % v['urlsrc']).encode()
-                if url[0].get('digest', {}).get('value') not in (hashlib.sha1(data).hexdigest(), hashlib.sha256(data).hexdigest()):
-                    viol.append(('scm-state-wrong', '%s: url digest %s does not match the downloaded file' % (tag, url[0].get('digest'))))
+                # one record per url SCM (the plain file and the extracted archive), each with the digest of what was downloaded
+                for data in (('download-data-v%d\n' % v['urlsrc']).encode(), w1.archive_bytes(v['urlsrc'])):
+                    if not any(u.get('digest', {}).get('value') in (hashlib.sha1(data).hexdigest(), hashlib.sha256(data).hexdigest()) for u in url):
+                        viol.append(('scm-state-wrong', '%s: url digests %s do not match the downloaded files' % (tag, [u.get('digest') for u in url])))
         # uploaded artifact: name == build-id, embedded audit == workspace audit
         if archive and info['label'] == 'dist':
             bidhex = art.get('build-id', '')
